@@ -216,6 +216,37 @@ def pick_guesses(rng, top, keyrow, sel, k, ng):
     return g
 
 
+GUESS_DTYPES = ('int8', 'int16', 'uint16', 'int32', 'uint32', 'int64', 'uint64')
+
+
+def guess_dtype_form(guesses, k):
+    """an integer dtype able to hold the guesses (int8 only when they all fit)"""
+    dt = GUESS_DTYPES[k % len(GUESS_DTYPES)]
+    if dt == 'int8' and max(guesses) > 127:
+        dt = 'int16'
+    return 'dt:' + dt
+
+
+def py_guesses(case):
+    """the `guesses` argument: uint8 ndarray, ndarray of another integer dtype, or a range object (with its own start / stop / step)"""
+    f = case['guess_form']
+    g = case['guesses']
+    if f == 'range':
+        return range(g[0], g[-1] + 1)
+    if f == 'rangeobj':
+        return range(*case['guess_range'])
+    if f.startswith('dt:'):
+        return np.array(g, dtype=f[3:])
+    return np.array(g, dtype='int64' if f == 'int64' else 'uint8')
+
+
+def stepped_ranges(top):
+    """range objects with steps (positive != 1, negative), covering the domain downwards and sparsely"""
+    t = top
+    return [(0, t, 2), (t - 1, -1, -1), (t - 6, 5, -7), (3, t - 50 if t > 64 else t - 9, 17 if t > 64 else 5), (1, t, 5), (t - 2, -1, -2),
+            (t - 1, t // 2, -3), (7, 8, 1), (t // 2, 0, -1 if t <= 64 else -9)]
+
+
 def rand_rows(rng, n, w):
     return [[rng.randrange(256) for _ in range(w)] for _ in range(n)]
 
@@ -272,7 +303,7 @@ class AesSfKind(Kind):
             while ng == T or (sel is not None and ng == len(sel)):
                 ng += 1
             c['guesses'] = pick_guesses(rng, 256, keyrow, sel, k, ng)
-            c['guess_form'] = ('array', 'array', 'int64', 'array')[k % 4]
+            c['guess_form'] = guess_dtype_form(c['guesses'], k // 4) if k % 4 == 2 else 'array'
         return c
 
     def gen(self, rng, tier):
@@ -303,6 +334,17 @@ class AesSfKind(Kind):
             c['guess_form'] = 'range'
             yield c
             k += 1
+        # 4. range objects with a step (positive != 1, negative, descending over the whole domain)
+        rs = stepped_ranges(256)
+        for j in range(len(rs) if tier == 'quick' else 4 * len(rs)):
+            ns = ('encrypt', 'decrypt')[j % 2]
+            name = list(AES_CLASSES[ns])[(j // 2) % 5]
+            c = self._case(rng, ns, name, (16, 24, 32)[j % 3], k, T=1 + j % 2, words={'form': 'int', 'val': (3 * j) % 16})
+            c['guess_range'] = list(rs[j % len(rs)])
+            c['guesses'] = list(range(*c['guess_range']))
+            c['guess_form'] = 'rangeobj'
+            yield c
+            k += 1
 
     def run(self, case):
         import scared
@@ -320,10 +362,7 @@ class AesSfKind(Kind):
         tag = spec_tag(ns, src)
         kw = {}
         if case['guesses'] is not None:
-            if case['guess_form'] == 'range':
-                kw['guesses'] = range(case['guesses'][0], case['guesses'][-1] + 1)
-            else:
-                kw['guesses'] = np.array(case['guesses'], dtype='int64' if case['guess_form'] == 'int64' else 'uint8')
+            kw['guesses'] = py_guesses(case)
         if case['words']['form'] != 'none':
             kw['words'] = py_words(case['words'])
         meta = {'plaintext': pt.astype(case['dtype']), 'ciphertext': ct.astype(case['dtype']), 'key': key}
@@ -465,10 +504,10 @@ def sf_shrink(case):
         yield dict(case, precall=False)
     if case['dtype'] != 'uint8':
         yield dict(case, dtype='uint8')
-    if case['guesses'] is not None and len(case['guesses']) > 1:
+    if case['guesses'] is not None and len(case['guesses']) > 1 and case['guess_form'] != 'rangeobj':
         for g in case['guesses']:
             yield dict(case, guesses=[g], guess_form='array')
-    if case['guesses'] is not None and case['guess_form'] != 'array':
+    if case['guesses'] is not None and case['guess_form'] not in ('array', 'rangeobj'):
         yield dict(case, guess_form='array')
     if case['words']['form'] not in ('none', 'int'):
         sel = words_positions(case['words'], 16)
@@ -520,7 +559,7 @@ class DesSfKind(Kind):
             while ng == T or (sel is not None and ng == len(sel)):
                 ng += 1
             c['guesses'] = pick_guesses(rng, 64, keyrow, sel, k, ng)
-            c['guess_form'] = ('array', 'int64', 'array')[k % 3]
+            c['guess_form'] = guess_dtype_form(c['guesses'], k // 3) if k % 3 == 1 else 'array'
         return c
 
     @staticmethod
@@ -572,6 +611,16 @@ class DesSfKind(Kind):
             c['guess_form'] = 'range'
             yield c
             k += 1
+        # 5. range objects with a step
+        rs = stepped_ranges(64)
+        for j in range(len(rs) if tier == 'quick' else 3 * len(rs)):
+            ns = ('encrypt', 'decrypt')[j % 2]
+            c = self._case(rng, ns, DES_NAMES[(j // 2) % 8], 8, k, T=1 + j % 2, words={'form': 'int', 'val': (3 * j) % 8})
+            c['guess_range'] = list(rs[j % len(rs)])
+            c['guesses'] = list(range(*c['guess_range']))
+            c['guess_form'] = 'rangeobj'
+            yield c
+            k += 1
 
     def run(self, case):
         import scared
@@ -588,10 +637,7 @@ class DesSfKind(Kind):
         tag = spec_tag(ns, src)
         kw = {}
         if case['guesses'] is not None:
-            if case['guess_form'] == 'range':
-                kw['guesses'] = range(case['guesses'][0], case['guesses'][-1] + 1)
-            else:
-                kw['guesses'] = np.array(case['guesses'], dtype='int64' if case['guess_form'] == 'int64' else 'uint8')
+            kw['guesses'] = py_guesses(case)
         if case['words']['form'] != 'none':
             kw['words'] = py_words(case['words'])
         subkey = np.array(self._subkey(case), dtype='uint8')
@@ -756,43 +802,62 @@ class _ReuseKind(Kind):
         first = self.base._case(rng, ns, name, klens[0], k, which=3)
         words, guesses = first['words'], first['guesses']
         steps = []
+        same_T = len(first['inp']) if k % 2 == 0 else None      # same-shape results held together (buffer reuse shows only then)
+        names = list(self.classes[ns])
         for i in range(n):
-            c = self.base._case(rng, ns, name, klens[i % len(klens)], k + 3 * i + 1, words=words, which=(3, 0, 3, 1)[i % 4] if i else 3)
+            # some steps are calls of ANOTHER class (its own single object, same guesses / words), in the same or the other namespace
+            sib = (k + i) % 4 == 1 and i > 0
+            s_ns = (('decrypt' if ns == 'encrypt' else 'encrypt') if (k // 4) % 2 else ns) if sib else ns
+            s_name = (list(self.classes[s_ns])[(k + i) % len(self.classes[s_ns])]) if sib else name
+            c = self.base._case(rng, s_ns, s_name, klens[i % len(klens)], k + 3 * i + 1, T=same_T, words=words, which=(3, 0, 3, 1)[i % 4] if i else 3)
             # the guesses of the object: those of the first step plus the expected-key words of this step's key for the first selected words
             extra = [g for g in (c['guesses'] or []) if g not in guesses][:1]
             guesses = guesses + extra
-            steps.append({'key': c['key'], 'inp': c['inp'], 'dtype': c['dtype'], 'order': ('call_key', 'key_call', 'key_call_key')[(k + i) % 3]})
+            st = {'key': c['key'], 'inp': c['inp'], 'dtype': c['dtype'], 'order': ('call_key', 'key_call', 'key_call_key')[(k + i) % 3]}
+            if sib and (s_ns, s_name) != (ns, name):
+                st['ns'], st['name'] = s_ns, s_name
+            steps.append(st)
+        del names
         # at least two consecutive steps must differ in their key
         if all(st['key'] == steps[0]['key'] for st in steps):
             steps[-1]['key'] = [(v + 1) % 256 for v in steps[-1]['key']]
-        return {'ns': ns, 'name': name, 'words': words, 'guesses': guesses, 'guess_form': first['guess_form'], 'custom_tag': first['custom_tag'],
+        gform = first['guess_form']
+        if gform == 'dt:int8' and max(guesses) > 127:
+            gform = 'dt:int16'
+        return {'ns': ns, 'name': name, 'words': words, 'guesses': guesses, 'guess_form': gform, 'custom_tag': first['custom_tag'],
                 'steps': steps}
 
     def _step_case(self, case, st):
-        return {'ns': case['ns'], 'name': case['name'], 'key': st['key'], 'inp': st['inp'], 'words': case['words'], 'guesses': case['guesses'],
+        return {'ns': st.get('ns', case['ns']), 'name': st.get('name', case['name']), 'key': st['key'], 'inp': st['inp'], 'words': case['words'],
+                'guesses': case['guesses'], 'guess_range': case.get('guess_range'),
                 'guess_form': case['guess_form'], 'dtype': st['dtype'], 'custom_tag': case['custom_tag']}
 
     def run(self, case):
         from scared.selection_functions.base import SelectionFunctionError
-        ns, name = case['ns'], case['name']
-        mod, cipher, width = self._env(ns)
-        src = self.classes[ns][name]
-        tag = spec_tag(ns, src)
-        kw = {}
-        if case['guess_form'] == 'range':
-            kw['guesses'] = range(case['guesses'][0], case['guesses'][-1] + 1)
-        else:
-            kw['guesses'] = np.array(case['guesses'], dtype='int64' if case['guess_form'] == 'int64' else 'uint8')
-        if case['words']['form'] != 'none':
-            kw['words'] = py_words(case['words'])
-        tagname, keyname = tag, 'key'
-        if case.get('custom_tag'):
-            kw[tag + '_tag'] = tagname = 'my_' + tag
-            kw['key_tag'] = keyname = 'my_key'
-        sf = getattr(mod, name)(**kw)                      # ONE object for the whole history
+        objs = {}
+
+        def obj(ns, name):
+            """ONE object per (namespace, class) for the whole history: the main one, and the sibling classes some steps call"""
+            if (ns, name) not in objs:
+                mod, _, _ = self._env(ns)
+                tag = spec_tag(ns, self.classes[ns][name])
+                kw = {'guesses': py_guesses(case)}
+                if case['words']['form'] != 'none':
+                    kw['words'] = py_words(case['words'])
+                tagname, keyname = tag, 'key'
+                if case.get('custom_tag'):
+                    kw[tag + '_tag'] = tagname = 'my_' + tag
+                    kw['key_tag'] = keyname = 'my_key'
+                objs[(ns, name)] = (getattr(mod, name)(**kw), tag, tagname, keyname)
+            return objs[(ns, name)]
         keyarr = None
         out_steps = []
+        held = []                                           # every returned array is kept by the caller until the end
         for st in case['steps']:
+            ns, name = st.get('ns', case['ns']), st.get('name', case['name'])
+            _, cipher, width = self._env(ns)
+            src = self.classes[ns][name]
+            sf, tag, tagname, keyname = obj(ns, name)
             newkey = np.array(st['key'], dtype='uint8')
             if keyarr is not None and keyarr.shape == newkey.shape:
                 keyarr[:] = newkey                          # the caller's key array, mutated in place between the calls
@@ -808,10 +873,12 @@ class _ReuseKind(Kind):
                 meta[tag] = np.bitwise_xor(meta[tag], 0x5A).astype(st['dtype'])
                 meta['key'] = np.bitwise_xor(keyarr, 0xA5)
             o = {'out': out.tolist()}
+            res_box = [None]
 
             def call():
                 try:
-                    o.update(_mk_words_obs(sf(**meta)))
+                    res_box[0] = sf(**meta)
+                    o.update(_mk_words_obs(res_box[0]))
                 except SelectionFunctionError as e:
                     o['sferror'] = str(e)[:120]
 
@@ -826,12 +893,19 @@ class _ReuseKind(Kind):
                 call()
                 if st['order'] == 'key_call_key':
                     expkey('expkey_again')
+            held.append(res_box[0])
             o['oracle'] = self._oracle_rows(ns, name, src, inp, keyarr, out)
             o['key_seen'] = keyarr.tolist()
             # independent oracle for the expected key: the round key of the real key schedule under THIS step's key
             ks = self._schedule(keyarr)
             o['expkey_ref'] = _flat(ks[0] if (src == 'in') == (ns == 'encrypt') else ks[-1])
             out_steps.append(o)
+        # earlier results intact: every array the caller still holds is exported again AFTER all later calls; these late values are
+        # what is compared with the spec
+        for o, res in zip(out_steps, held):
+            if res is not None:
+                o['values_at_return'] = o['values']
+                o['values'] = _flat(res)
         return {'steps': out_steps}
 
     def coq(self, case, obs):
@@ -841,7 +915,8 @@ class _ReuseKind(Kind):
     def _describe(self, case, upto):
         seq = []
         for i, st in enumerate(case['steps'][:upto + 1]):
-            call = f'sf({len(st["inp"])} traces)'
+            who = 'sf' if 'name' not in st else f'{st.get("ns", case["ns"])}.{st["name"]}()'
+            call = f'{who}({len(st["inp"])} traces)'
             key = f'compute_expected_key(key{i}: {len(st["key"])} bytes{" (same ndarray, mutated in place)" if i and len(st["key"]) == len(case["steps"][i - 1]["key"]) else ""})'
             seq.append({'call_key': f'{call}; {key}', 'key_call': f'{key}; {call}', 'key_call_key': f'{key}; {call}; {key}'}[st['order']])
         return ' | '.join(seq)
@@ -852,6 +927,9 @@ class _ReuseKind(Kind):
         for i, (st, o) in enumerate(zip(case['steps'], obs['steps'])):
             if o['key_seen'] != st['key']:
                 return f'step {i}: the caller\'s key array was modified'
+            if 'values_at_return' in o and o['values_at_return'] != o['values']:
+                return (f'the array returned at step {i} was overwritten by later calls (the caller still holds it): '
+                        f'history [{self._describe(case, len(case["steps"]) - 1)}]')
             if o['expkey'] != o['expkey_ref']:
                 return (f'step {i}: compute_expected_key(key{i}) returned {o["expkey"][:4]}.., the key schedule of key{i} has {o["expkey_ref"][:4]}..; '
                         f'history on ONE object: {self._describe(case, i)}')
